@@ -423,7 +423,16 @@ func RunAuth(bin string, rows []AuthRow, seed int64) (runs []AuthRun, viols []dr
 		if e != nil {
 			return runs, viols, e
 		}
+		// the rows of a configuration, and then once more the rows that must be refused: by then valid
+		// credentials of the same user have been accepted on every endpoint (a server that remembers
+		// successful logins must still look at the password)
+		rows := append([]AuthRow{}, byCfg[k]...)
 		for _, row := range byCfg[k] {
+			if row.Expect == "refused" {
+				rows = append(rows, row)
+			}
+		}
+		for _, row := range rows {
 			n++
 			methods := []string{row.Method}
 			if row.Iface == "grpc" && row.Method == "unknown" {
